@@ -334,8 +334,8 @@ def measure(db, text, mem=False, limit=None, steps=True):
         if hasattr(f, "cache_clear"):
             f.cache_clear()
     r = {"ok": False, "out_len": 0, "steps": 0, "peak": 0, "err": None, "where": None, "cls": None, "count": None}
-    signal.signal(signal.SIGALRM, _alarm)
-    signal.alarm(WATCHDOG_S)
+    signal.signal(signal.SIGPROF, _alarm)
+    signal.setitimer(signal.ITIMER_PROF, WATCHDOG_S)
     sc = StepCounter() if steps else _NoSteps()
     try:
         with sc:
@@ -360,7 +360,7 @@ def measure(db, text, mem=False, limit=None, steps=True):
         r["steps"] = sc.n
         r["err"], r["cls"], r["where"] = "%s: %s" % (type(err).__name__, str(err)[:200]), errclass(err), where_of(err)
     finally:
-        signal.alarm(0)
+        signal.setitimer(signal.ITIMER_PROF, 0)
         import sys
         sys.setprofile(None)
         if mem and tracemalloc.is_tracing():
@@ -542,8 +542,8 @@ def vm_run(Logged, db, c, t, p, nm):
     rep = {"kind": "vm", "case": c, "templates": t, "page": p if len(p) < 2000 else p[:200] + "..."}
     # "argcap": the model predicts that an argument outgrows the 256 KiB cap and is reported inline
     key = "recursion guard%s limit=%d univ=%s page=%s" % (" argcap" if c.get("capped") else "", c["limit"], json.dumps(c["univ"]), json.dumps(c["page"]))
-    signal.signal(signal.SIGALRM, _alarm)
-    signal.alarm(WATCHDOG_S)
+    signal.signal(signal.SIGPROF, _alarm)
+    signal.setitimer(signal.ITIMER_PROF, WATCHDOG_S)
     try:
         e = Logged(p, pagename="Main", wikidb=db, recursion_limit=c["limit"])
         e.vlog = []
@@ -555,7 +555,7 @@ def vm_run(Logged, db, c, t, p, nm):
             raise MachineryError("the harness failed while replaying %s: %s: %s" % (key, type(err).__name__, err))
         return (key + " raised " + type(err).__name__, "%s at %s: %s" % (type(err).__name__, where_of(err), str(err)[:200]), rep)
     finally:
-        signal.alarm(0)
+        signal.setitimer(signal.ITIMER_PROF, 0)
     problems = []
     if not isinstance(got, str):
         problems.append("returned %r" % type(got))
